@@ -913,6 +913,105 @@ fn largem(a: &Args) {
     write_json(&a.str("out"), &json!({"cases": cases}));
 }
 
+/// fullperm out=<json> seed=N : complete passes at sizes around 2^20 (not multiples of 2^16): a new shuffle, the pass
+/// after a reset and the following pass without reset must each return every value of 0..m exactly once
+fn fullperm(a: &Args) {
+    use rand::SeedableRng;
+    silence_panics();
+    let seed = a.u64_or("seed", 1);
+    let mut cases: Vec<Value> = Vec::new();
+    for m in [(1usize << 20) + 1, 1_500_001, (1 << 21) - 7, 70_001] {
+        let r = catch(|| {
+            let mut rng = rand_xoshiro::Xoshiro256PlusPlus::seed_from_u64(seed ^ (m as u64) << 7);
+            let mut fy = FYshuffle::new(m);
+            let mut bad: Vec<Value> = Vec::new();
+            for pass in 0..3 {
+                if pass == 1 {
+                    fy.reset();
+                }
+                let mut seen = vec![false; m];
+                let mut dup = 0u64;
+                let mut oob = 0u64;
+                let mut first_dup: Option<usize> = None;
+                for _ in 0..m {
+                    let v = fy.next(&mut rng);
+                    if v >= m {
+                        oob += 1;
+                    } else if seen[v] {
+                        dup += 1;
+                        first_dup.get_or_insert(v);
+                    } else {
+                        seen[v] = true;
+                    }
+                }
+                if dup + oob > 0 {
+                    let missing = seen.iter().position(|x| !*x);
+                    bad.push(json!({"pass": pass, "duplicates": dup, "out_of_range": oob, "first_duplicate": first_dup, "first_missing": missing}));
+                }
+            }
+            bad
+        });
+        match r {
+            Ok(bad) => cases.push(json!({"m": m, "bad": bad, "draws": 3 * m})),
+            Err(msg) => cases.push(json!({"m": m, "panic": msg, "bad": [], "draws": 0})),
+        }
+    }
+    write_json(&a.str("out"), &json!({"cases": cases}));
+}
+
+/// longlife out=<json> seed=N cycles=C : ONE shuffle lives through C cycles of (a few draws, reset); at check points
+/// (dense around 2^8 and 2^16 and their multiples, sparse elsewhere) the pass after the reset is compared, draw for
+/// draw on the same generator words, with the pass of a new shuffle after its first reset: reset forgets the history, however long it is
+fn longlife(a: &Args) {
+    silence_panics();
+    let seed = a.u64_or("seed", 1);
+    let cycles = a.u64_or("cycles", 140_000);
+    let mut cases: Vec<Value> = Vec::new();
+    for m in [2usize, 3, 8, 33] {
+        let mut rng = rng_from(seed, 17_000 + m as u64);
+        let r = catch(|| {
+            let mut fy = FYshuffle::new(m);
+            let mut bad: Vec<Value> = Vec::new();
+            let mut checks = 0u64;
+            for c in 1..=cycles {
+                let k = 1 + (c as usize % 3).min(m - 1);
+                for _ in 0..k {
+                    let mut g = Fixed::new(rng.random_range(0..ONE));
+                    let _ = fy.next(&mut g);
+                }
+                fy.reset();
+                let near = |x: u64| (c % x) < 3 || (c % x) > x - 3;
+                if near(256) && c < 2000 || near(65536) || c % 9973 == 0 {
+                    checks += 1;
+                    let tape: Vec<u64> = (0..m).map(|_| rng.random_range(0..ONE)).collect();
+                    let mut fresh = FYshuffle::new(m);
+                    fresh.reset(); // both are "after a reset": only their histories differ
+                    let mut same = true;
+                    let mut got: Vec<usize> = Vec::new();
+                    let mut want: Vec<usize> = Vec::new();
+                    for n in &tape {
+                        let x = fy.next(&mut Fixed::new(*n));
+                        let y = fresh.next(&mut Fixed::new(*n));
+                        got.push(x);
+                        want.push(y);
+                        same = same && x == y;
+                    }
+                    if !same && bad.len() < 5 {
+                        bad.push(json!({"resets_before": c, "got": got, "new_object": want}));
+                    }
+                    fy.reset();
+                }
+            }
+            (bad, checks)
+        });
+        match r {
+            Ok((bad, checks)) => cases.push(json!({"m": m, "cycles": cycles, "checks": checks, "bad": bad})),
+            Err(msg) => cases.push(json!({"m": m, "cycles": cycles, "checks": 0, "bad": [], "panic": msg})),
+        }
+    }
+    write_json(&a.str("out"), &json!({"cases": cases}));
+}
+
 fn main() {
     let argv: Vec<String> = std::env::args().collect();
     if argv.len() < 2 {
@@ -921,6 +1020,8 @@ fn main() {
     let a = Args::parse(&argv[2..]);
     match argv[1].as_str() {
         "replay" => replay(&a),
+        "fullperm" => fullperm(&a),
+        "longlife" => longlife(&a),
         "behav" => behav(&a),
         "meta" => meta(&a),
         "record" => record(&a),
